@@ -19,6 +19,7 @@ type TarEntry struct {
 	Link    string            `json:"link,omitempty"`
 	Mode    int64             `json:"mode"`
 	Mtime   int64             `json:"mtime"`              // unix seconds
+	Atime   int64             `json:"atime,omitempty"`    // access time (unix seconds); only PAX and GNU headers can carry one
 	MtimeNs int64             `json:"mtime_ns,omitempty"` // fraction of a second; representable in PAX only
 	Body    string            `json:"body,omitempty"`
 	PAX     map[string]string `json:"pax,omitempty"`
@@ -67,6 +68,21 @@ func BuildTarGz(entries []TarEntry, format string) ([]byte, error) {
 	return Gzip(raw), nil
 }
 
+// GzipMembers compresses raw as several gzip members (RFC 1952 allows a file
+// to be a sequence of members), cut at the given offsets.
+func GzipMembers(raw []byte, cuts ...int) []byte {
+	var out []byte
+	prev := 0
+	for _, c := range append(cuts, len(raw)) {
+		if c < prev || c > len(raw) {
+			continue
+		}
+		out = append(out, Gzip(raw[prev:c])...)
+		prev = c
+	}
+	return out
+}
+
 func Gzip(raw []byte) []byte {
 	var buf bytes.Buffer
 	zw, _ := gzip.NewWriterLevel(&buf, gzip.BestSpeed)
@@ -96,6 +112,12 @@ func BuildTar(entries []TarEntry, format string) ([]byte, error) {
 		}
 		if e.Type == "file" {
 			h.Size = int64(len(e.Body))
+		}
+		if e.Atime != 0 {
+			h.AccessTime = time.Unix(e.Atime, 0)
+			if h.Format != tar.FormatGNU {
+				h.Format = tar.FormatPAX
+			}
 		}
 		if e.Type == "xglobal" {
 			h.Format = tar.FormatPAX
